@@ -83,6 +83,52 @@ def build_lane(lane):
     return binary
 
 
+MIRI_ENV = {"CARGO_TARGET_DIR": os.path.join(TARGET, "miri")}
+
+
+def build_miri():
+    """Warm the Miri build (sysroot + crate) with a trivial run."""
+    ensure_lock()
+    env = dict(MIRI_ENV)
+    env["MIRIFLAGS"] = "-Zmiri-disable-isolation"
+    rc, out, err, dt = run_cmd(["cargo", "+nightly", "miri", "run", "--offline", "--no-default-features", "--", "miri-ping"],
+                               env=env, cwd=HARNESS, timeout=3000)
+    if rc != 0 or b"miri-pong" not in out:
+        sys.stderr.write(err.decode("utf8", "replace")[-3000:])
+        raise Inconclusive("the Miri lane could not be built / started (rc=%s)" % rc)
+    log("[build] lane=miri ok (%.1fs)" % dt)
+
+
+def run_miri(pid, tier, seed, miri_seeds, timeout=3600):
+    """One interpreter process per Miri seed (different schedules / allocation orders)."""
+    d = os.path.join(OUT, pid, "miri")
+    shutil.rmtree(d, ignore_errors=True)
+    os.makedirs(d, exist_ok=True)
+
+    def one(ms):
+        outp = os.path.join(d, "seed-%d.json" % ms)
+        env = dict(MIRI_ENV)
+        env["MIRIFLAGS"] = "-Zmiri-disable-isolation -Zmiri-seed=%d" % ms
+        cmd = ["cargo", "+nightly", "miri", "run", "--offline", "--no-default-features", "--", "run", pid, "--tier", tier,
+               "--seed", str(seed + ms), "--shard", "%d/%d" % (ms % 16, 16), "--lane", "miri", "--small", "--out", outp]
+        rc, out, err, dt = run_cmd(cmd, env=env, cwd=HARNESS, timeout=timeout)
+        return ms, rc, outp, err, dt, cmd
+
+    reports, failures = [], []
+    with ThreadPoolExecutor(max_workers=min(len(miri_seeds), NCPU)) as ex:
+        for ms, rc, outp, err, dt, cmd in ex.map(one, miri_seeds):
+            etext = err.decode("utf8", "replace")
+            if rc == 0 and os.path.exists(outp):
+                try:
+                    reports.append(json.load(open(outp)))
+                    continue
+                except Exception:
+                    pass
+            failures.append({"shard": ms, "rc": rc, "stderr": etext[-4000:], "wall_s": dt, "cmd": cmd, "lane": "miri",
+                             "miri_report": ("Undefined Behavior" in etext) or ("Data race" in etext) or ("error: " in etext and "miri" in etext.lower())})
+    return reports, failures
+
+
 def build_cli(profile):
     tdir = os.path.join(TARGET, "cli")
     cmd = ["cargo", "build", "--offline", "--features", "cmdline", "--bin", "jsonlogic",
@@ -219,7 +265,12 @@ def merge_report(agg, rep, lane):
         agg[f] += rep.get(f, 0)
     agg["exhaustive_parts"].update(rep.get("exhaustive_parts", []))
     for k, v in rep.get("extra", {}).items():
-        if isinstance(v, (int, float)) and not isinstance(v, bool):
+        if k.startswith("max_"):
+            cur = agg["extra"].get(k)
+            val = v.get("max", 0) if isinstance(v, dict) else v
+            if cur is None or val > (cur.get("max", 0) if isinstance(cur, dict) else cur):
+                agg["extra"][k] = v
+        elif isinstance(v, (int, float)) and not isinstance(v, bool):
             agg["extra"][k] = agg["extra"].get(k, 0) + v
         elif isinstance(v, list):
             agg["extra"].setdefault(k, [])
